@@ -101,6 +101,14 @@ Theorem c10_batches_independent :
 Proof. split; [exact batches_independent | exact api_batches_independent]. Qed.
 Print Assumptions c10_batches_independent.
 
+(* Drain racing with Stop: the hand-over is complete with respect to the wheel state at the moment the Drain is
+   processed -- it is the output of that handler; a Stop that follows (while the drain function is still busy
+   with the tasks) closes the wheel and changes nothing of it. *)
+Theorem c10_drain_then_stop : forall s s' f, step s ODrain = Ok (s', f) ->
+  api_run (mkW s false) [CDrain; CStop] = Ok (mkW s' true, [mkO E_OK [] f; mkO E_OK [] []]).
+Proof. intros s s' f H. cbn [api_run api send w_closed w_st]. rewrite H. reflexivity. Qed.
+Print Assumptions c10_drain_then_stop.
+
 (* Panicking callbacks.  In the model the handlers take no result from the callbacks: a tick's batch and Drain's
    hand-over are outputs (c10_batches_independent), so a callback that panics changes neither what was handed over
    nor what later ticks fire.  What the run loop does share with its callbacks is the TaskRunner of drainAll
